@@ -38,6 +38,11 @@ MUTANTS = [
      "        newfile.write(mem_buff_contents[mem_buff_position:])\n        newfile.seek(position, 0)",
      "        newfile.seek(position, 0)\n        newfile.write(mem_buff_contents[mem_buff_position:])",
      'SpooledTextFile._rollover : ensures['),
+    ('t14-c14-transformed-source-runs-the-program-at-construction', 'C14',
+     'exactly_lib/impls/types/string_transformer/impl/sources/transformed_string_sources.py',
+     "            _WriterOfTransformed(write, model_contents),\n            file_name,",
+     "            _WriterOfTransformed(write, model_contents),\n            file_name,\n        ).as_file and contents_via_write_to.ContentsViaWriteTo(\n            model_contents.tmp_file_space,\n            _WriterOfTransformed(write, model_contents),\n            None,",
+     'transformed_string_source_from_writer : '),
     # --- which channel is captured
     ('t14-c14-stderr-writer-captures-stdout', 'C14', _CO + 'exit_ignored.py',
      "class StderrWriter(_WriterBase):\n    def _output_files(self, output: TextIO) -> StdOutputFiles:\n        return StdOutputFiles(\n            subprocess.DEVNULL,\n            output,\n        )",
@@ -81,6 +86,9 @@ BENIGN = [
     # the lines of a concatenation stay proved when the test for a final new-line is written differently
     ('benign-t14-c14-concat-ended-by-new-line-written-with-endswith', 'C14', _CONCAT,
      [("    return s != '' and s[-1] == '\\n'", "    return s.endswith('\\n')")]),
+    ('benign-t14-c14-transformed-source-asks-for-the-contents-twice', 'C14',
+     'exactly_lib/impls/types/string_transformer/impl/sources/transformed_string_sources.py',
+     [("            _WriterOfTransformed(write, model_contents),", "            _WriterOfTransformed(write, model.contents()),")]),
     # a writer that flushes twice still appends exactly the program's text
     ('benign-t14-c14-writer-flushes-twice', 'C14', _CO + 'exit_ignored.py',
      [("        output.flush()\n", "        output.flush()\n        output.flush()\n")]),
